@@ -315,6 +315,20 @@ def run(case):
         its = s1["index"].get("tuple", [s1["index"].get("single")])
         tags += ["seqitem=" + C.item_kind(its[0])] + (["ellipsis"] if "..." in its else [])
     res = {"tags": tags, "oracle": None, "nontrivial": repr((case["shapes"], case["ca"], s1, case.get("step2")))}
+    if case["wseed"] % 3 == 0:
+        # requests that are refused (explode along an axis that does not exist, on the sequence and on its cubes)
+        # leave the sequence and the cubes it holds exactly as they were
+        nd_ = len(case["shapes"][0])
+        metas = [dict(c.meta) for c in cubes]
+        for obj in [seq] + list(cubes):
+            try:
+                obj.explode_along_axis(nd_)
+            except Exception:
+                pass
+        if [dict(c.meta) for c in cubes] != metas or seq.meta != {"seq": 1}:
+            res["oracle"] = f"a refused explode_along_axis({nd_}) changed the meta of the cubes held: {[dict(c.meta) for c in cubes]} (was {metas})"
+            return res
+        tags.append("after-refused-requests")
     try:
         out, err, fail, req = apply_step(seq, cubes, s1, rng, exact)
         res["impl"] = {"err": err}
